@@ -701,7 +701,8 @@ class VTF:
 
             width >>= 1
             height >>= 1
-        self.mipmap_count = mip_count
+        # A texture that is one pixel wide or tall has no smaller levels, but still has its one image.
+        self.mipmap_count = max(mip_count, 1)
 
     @classmethod
     def read(cls: 'type[VTF]', file: IO[bytes], header_only: bool = False) -> 'VTF':
